@@ -365,3 +365,98 @@ func H_C10_long_list_indices() {
 	}
 	verifReach("end")
 }
+
+// A derived object (README "Derived Structures") that overrides the lookup methods consistently: keys it
+// does not hold itself are looked up in a parent object. Step-by-step navigation goes through the overriding
+// methods, so tree-form reads must, too — at the root and where such an object is an intermediate.
+type hFallbackObj struct {
+	Object
+	parent Object
+}
+
+func hNewFallback(parent Object, vals ...any) *hFallbackObj {
+	ego := &hFallbackObj{Object: NewObject(vals...), parent: parent}
+	ego.Init(ego)
+	return ego
+}
+
+func (ego *hFallbackObj) KeyExists(key string) bool {
+	return ego.Object.KeyExists(key) || ego.parent.KeyExists(key)
+}
+
+func (ego *hFallbackObj) TypeOf(key string) Type {
+	if ego.Object.KeyExists(key) {
+		return ego.Object.TypeOf(key)
+	}
+	return ego.parent.TypeOf(key)
+}
+
+func (ego *hFallbackObj) Get(key string) any {
+	if ego.Object.KeyExists(key) {
+		return ego.Object.Get(key)
+	}
+	return ego.parent.Get(key)
+}
+
+func (ego *hFallbackObj) GetObject(key string) Object { return ego.Get(key).(Object) }
+func (ego *hFallbackObj) GetList(key string) List     { return ego.Get(key).(List) }
+
+func H_C10_overriding_derived() {
+	verifBound("PATHSEG", 3)
+	k1, k2 := hBytesStr(1), hBytesStr(1)
+	hNotSigil(k1)
+	hNotSigil(k2)
+	verifAssume(k1 != k2)
+	x := nondetInt()
+	parent := NewObject(k1, NewObject("p", x, "q", NewList(x, "s")), k2, NewList(NewObject("p", true), 2.5), "n", "base")
+	fb := hNewFallback(parent, "own", NewObject(k1, x), "n", nil)
+	var root any
+	switch nondetIntRange(0, 2) {
+	case 0:
+		root = fb
+	case 1:
+		root = NewObject("d", fb, k1, 1)
+	default:
+		root = NewList(fb, x)
+	}
+	n := nondetIntRange(1, 3)
+	segs := make([]hSeg, n)
+	for i := range segs {
+		switch nondetIntRange(0, 8) {
+		case 0:
+			segs[i] = hSeg{sigil: '.', key: k1, text: k1}
+		case 1:
+			segs[i] = hSeg{sigil: '.', key: k2, text: k2}
+		case 2:
+			segs[i] = hSeg{sigil: '.', key: "n", text: "n"}
+		case 3:
+			segs[i] = hSeg{sigil: '.', key: "own", text: "own"}
+		case 4:
+			segs[i] = hSeg{sigil: '.', key: "d", text: "d"}
+		case 5:
+			segs[i] = hSeg{sigil: '.', key: "p", text: "p"}
+		case 6:
+			segs[i] = hSeg{sigil: '.', key: "q", text: "q"}
+		case 7:
+			segs[i] = hSeg{sigil: '#', idx: 0, text: "0", num: true}
+		default:
+			segs[i] = hSeg{sigil: '#', idx: 1, text: "1", num: true}
+		}
+	}
+	p := hPathString(segs)
+	want, wkind, ok := hNavigate(root, segs)
+	ty, tp := hTypeOfTFAny(root, p)
+	verifAssert(!tp, "TypeOfTF never panics")
+	got, gp := hGetTFAny(root, p)
+	if ok {
+		verifAssert(ty == wkind, "TypeOfTF of a resolvable path is the kind of the value reached step by step")
+		verifAssert(!gp, "GetTF of a resolvable path does not panic")
+		if !gp {
+			verifAssert(hSameShallow(hSnapValue(wkind, got, false), hSnapValue(wkind, want, false)), "GetTF returns what segment-by-segment Get returns (identical container / equal scalar)")
+		}
+	} else {
+		verifAssert(ty == TypeUndefined, "TypeOfTF of a path that cannot be followed is Undefined")
+		verifAssert(gp, "GetTF of a path that cannot be followed panics")
+	}
+	verifReach("end")
+}
